@@ -20,7 +20,6 @@ package gohbase
 // goroutine of the client is left.
 
 import (
-	"sync/atomic"
 	"bytes"
 	"context"
 	"errors"
@@ -31,6 +30,7 @@ import (
 	"strconv"
 	"strings"
 	"sync"
+	"sync/atomic"
 	"testing"
 	"testing/synctest"
 	"time"
@@ -127,6 +127,9 @@ func newC19Env(queue int, opts ...Option) *c19Env {
 		e.cl.AddServer(h)
 	}
 	e.cl.CreateTable("t", [][]byte{[]byte("g"), []byte("p")}, []string{"rs1", "rs1", "rs2"})
+	for _, k := range []string{"a5", "a6", "a7"} {
+		e.cl.PutRow("t", []byte(k), []verifsim.KV{{Row: []byte(k), Family: []byte("f"), Qualifier: []byte("q"), Timestamp: 1, Type: 4, Value: []byte("v")}})
+	}
 	e.c = newSimClient(e.cl, append([]Option{RpcQueueSize(queue)}, opts...)...)
 	return e
 }
@@ -191,6 +194,20 @@ func (e *c19Env) scan() {
 				return err
 			}
 		}
+	})
+}
+
+// scanRenew: a scan that keeps its region scanner's lease alive in the background (hrpc.RenewInterval); the user reads one
+// row and walks away - no further Next, no Close of the scanner, a context that never ends. The renewer is a goroutine of
+// the client: Close of the client must end it like everything else.
+func (e *c19Env) scanRenew() {
+	e.goCall("scan-with-lease-renewal", func() error {
+		s, _ := hrpc.NewScanStr(context.Background(), "t", hrpc.NumberOfRows(1), hrpc.RenewInterval(time.Second))
+		_, err := e.c.Scan(s).Next()
+		if err != nil && err.Error() == "EOF" {
+			return nil
+		}
+		return err
 	})
 }
 
@@ -331,6 +348,7 @@ func TestVerifC19(t *testing.T) {
 		e.get("q2")
 		e.scan()
 		e.cacheRegions()
+		e.scanRenew()
 	}
 	scenario := func(name string, queue int, prep func(e *c19Env, bus *hookBus), during func(e *c19Env, bus *hookBus) time.Time, opts ...Option) []string {
 		var hits []string
@@ -509,7 +527,9 @@ func TestVerifC19(t *testing.T) {
 		}, func(e *c19Env, bus *hookBus) time.Time {
 			keys := []string{"a1", "h1", "q1", "b2", "x9"}
 			for j := 0; j < 3+rng.Intn(5); j++ {
-				switch rng.Intn(4) {
+				switch rng.Intn(5) {
+				case 4:
+					e.scanRenew()
 				case 0:
 					e.get(keys[rng.Intn(len(keys))])
 				case 1:
@@ -560,6 +580,7 @@ func TestVerifC20(t *testing.T) {
 		order           []int // which region each caller touches first
 		resets          int   // connection resets injected between waves
 		killDuringProbe bool
+		endedCtx        int // that many batchable calls whose context has already ended are made on the established regions
 		queue           int
 		jitter          int64
 	}
@@ -640,6 +661,29 @@ func TestVerifC20(t *testing.T) {
 			}
 			wave()
 			quiesce()
+			if p.endedCtx > 0 {
+				// callers that have given up: nothing is wrong with the connection, it stays the one connection of its server
+				dead, cancelDead := context.WithCancel(context.Background())
+				cancelDead()
+				vals := map[string]map[string][]byte{"f": {"q": []byte("v")}}
+				for j := 0; j < p.endedCtx; j++ {
+					key := append(append([]byte{}, regs[j%p.nreg].Start...), byte('0'+j%10))
+					switch j % 3 {
+					case 0:
+						g, _ := hrpc.NewGet(dead, []byte("t"), key)
+						c.Get(g)
+					case 1:
+						pt, _ := hrpc.NewPut(dead, []byte("t"), key, vals)
+						c.Put(pt)
+					case 2:
+						pt, _ := hrpc.NewPut(dead, []byte("t"), key, vals)
+						c.SendBatch(dead, []hrpc.Call{pt})
+					}
+				}
+				quiesce()
+				wave()
+				quiesce()
+			}
 			for r := 0; r < p.resets; r++ {
 				cl.ResetConns("rs1")
 				time.Sleep(10 * time.Millisecond)
@@ -700,6 +744,11 @@ func TestVerifC20(t *testing.T) {
 				}
 				run(params{name: fmt.Sprintf("grid/nreg=%d/m=%d/order=%d/kill-during-probe", nreg, m, oi), nreg: nreg, m: m, order: o, killDuringProbe: true, queue: 2})
 			}
+		}
+	}
+	for nreg := 1; nreg <= 3; nreg++ {
+		for _, q := range []int{1, 2, 5} {
+			run(params{name: fmt.Sprintf("callers-with-ended-contexts/nreg=%d/queue=%d", nreg, q), nreg: nreg, m: 3, order: []int{0, 1, 2, 3}, endedCtx: 120, queue: q})
 		}
 	}
 	// a connection error that is looked at LATE: two regions share connection 1 of rs1; it breaks while a get (region B) and a
@@ -794,7 +843,7 @@ func TestVerifC20(t *testing.T) {
 			cl.ResetConns("rs1") // connection 1 dies: the get's caller notices at once, the batch is still waiting for rs2
 			time.Sleep(2 * time.Second)
 			synctest.Wait()
-			quiesce() // both regions of rs1 are on connection 2 by now
+			quiesce()   // both regions of rs1 are on connection 2 by now
 			close(hold) // rs2 answers: the batch now looks at what connection 1 told it
 			wg.Wait()
 			quiesce()
